@@ -173,6 +173,7 @@ impl LinkFlowState<role::ReceiverMarker> {
 
 // ReceiverLink<T>: only the field get_link_flow touches (R11: other fields elided; touching one is a compile error => undecided)
 pub struct ReceiverLink { pub flow_state: LinkFlowState<role::ReceiverMarker>, pub output_handle: Option<OutputHandle>, pub session_stop_reason: OnceCell<SessionStopReason> }
+pub open spec fn flow_stop_err(stop: Option<SessionStopReason>) -> DispositionError { match stop { Some(r) => DispositionError::SessionStopped(r), None => DispositionError::IllegalState } }
 /// `pub type FlowError = IllegalLinkStateError;` -- the same two variants as DispositionError here
 pub type FlowError = DispositionError;
 
@@ -204,7 +205,7 @@ impl ReceiverLink {
 //@@ selfmut
 //@@ param writer : &mut ChanSender<LinkFrame>
 //@@ subst `let handle = self .output_handle .clone() .ok_or(FlowError::IllegalState)? .into();` => `let handle: Handle = output_to_handle(self.output_handle.clone().ok_or(FlowError::IllegalState)?);` rule=R16
-//@@ subst `|_v0|` => `|_v0: ChanSendError|` rule=optional-R5
+//@@ subst `.map_err(|_v0| __E1)` => `.map_err(|_v0: ChanSendError| -> (o: DispositionError) ensures o == flow_stop_err(self.session_stop_reason.val()) { __E1 })` rule=R18
 //@@ spec
     ensures
         old(self).output_handle is None ==> r is Err && final(self).flow_state == old(self).flow_state && final(writer).sent@ == old(writer).sent@,   // [C09.flow.needs-handle] a link without an output handle (detached) sends no flow and records no credit
@@ -218,6 +219,7 @@ impl ReceiverLink {
                     handle: Handle(old(self).output_handle->Some_0.0), delivery_count: Some(s0.delivery_count), link_credit: Some(s1.link_credit),
                     available: None, drain: s1.drain, echo, properties: (if include_properties { s0.properties } else { None }) })))   // [C09.flow.sent-as-recorded] the flow that goes to the sender carries exactly the credit and drain flag just recorded and the current delivery-count: what the receiver accounts and what the sender is told agree
         }),
+        old(self).output_handle is Some && r is Err ==> r == Err::<(), FlowError>(flow_stop_err(final(self).session_stop_reason.val())),   // [C14.link.closed-channel-reports-stop-reason] a flow that cannot be queued because the session is gone fails with SessionStopped(reason published by the session)
 //@@ end
 }
 
